@@ -2,7 +2,7 @@
    Only ExtrOcamlBasic is used: bool/option/unit/list/prod/sumbool/sumor map to OCaml's own;
    N, positive, nat stay Coq datatypes; there is no Extract Constant. *)
 From Coq Require Import Extraction ExtrOcamlBasic.
-From MIO Require Import Base Gen RemoteAddr ResId.
+From MIO Require Import Base Gen RemoteAddr ResId Varint Decoder.
 
 Extraction Language OCaml.
 Set Extraction Optimize.
@@ -12,4 +12,6 @@ Separate Extraction
   RemoteAddr.gen_shape RemoteAddr.to_remote_addr RemoteAddr.is_socket_addr RemoteAddr.is_string
   RemoteAddr.socket_addr RemoteAddr.string_of RemoteAddr.from_socket RemoteAddr.shape_ok
   ResId.gen_layout ResId.mk_id ResId.mk_id_raw ResId.resource_type ResId.adapter_id ResId.base_value
-  ResId.token_of_id ResId.id_of_token ResId.issue ResId.layout_ok.
+  ResId.token_of_id ResId.id_of_token ResId.issue ResId.layout_ok
+  Varint.decode_size Varint.enc Varint.encode_size
+  Decoder.decode Decoder.feed Decoder.parse Decoder.frames Decoder.try_decode Decoder.store_and_decoded_data.
